@@ -162,6 +162,12 @@ def prefixDiffers : Nat → Bytes → Bytes → Bool
   | n + 1, x :: a, y :: b => x != y || prefixDiffers n a b
   | _ + 1, _, _ => true
 
+/-- `min cap l.length`, looking at no more than `cap` elements (see `minLen_eq`). -/
+def minLen : Nat → Bytes → Nat
+  | 0, _ => 0
+  | _ + 1, [] => 0
+  | c + 1, _ :: l => minLen c l + 1
+
 /-- One run of the loop of `compareFile` with a buffer of `cap` bytes: `file` = bytes not read
 yet, `data` = bytes not matched yet. Result: the sizes of the `read` calls issued (buffer, returned)
 and the verdict (`some true` = nil, `some false` = "file contents do not match", `none` = still
@@ -177,7 +183,7 @@ def compareLoop (cap : Nat) : Nat → Bytes → Bytes → List (Nat × Nat) × O
       -- n = 0, err = io.EOF
       ([(cap, 0)], some data.isEmpty)
     else
-      let n := Nat.min cap file.length
+      let n := minLen cap file
       if n > data.length || prefixDiffers n file data then ([(cap, n)], some false)
       else
         let r := compareLoop cap fuel (file.drop n) (data.drop n)
